@@ -1,13 +1,39 @@
 (* C08 — operations never modify their arguments; failed calls change nothing.
-   Statements only.  The model is a functional heap: these theorems say that the
-   MODEL of every construction call (validate-before-append order transcribed
-   from the code; add working on a copy) changes at most its target object and
-   nothing at all when it raises.  That the real objects behave like the model
-   (no hidden aliasing) is what the correspondence run checks: after every call
-   of a generated history the observable state of EVERY live object is compared
-   with the model's and with its own state before the call (harness/c08.py). *)
+   Statements only.
+
+   Part 1 (functional pool, Model/World.v): every construction call changes at most its target
+   object and nothing at all when it raises.  A functional pool cannot exhibit aliasing, so these
+   three theorems are about the validate-before-append order and about add working on a copy.
+
+   Part 2 (reference-level heap model, Model/Heap.v): circuits hold REFERENCES to component cells,
+   list objects and dict objects; copy() / + share component cells between circuits, add copies
+   each component before it shifts it, unpack_groups aliases the external herald dicts to the
+   full ones.  Proved for every call of the construction API (Circuit(n), Unitary, bs, ps, loss,
+   barrier, mode_swaps, herald, add grouped or not, +, copy, unpack_groups) and every history:
+     * REFINEMENT: reading every circuit through the heap ([abs]) commutes with the call, and the
+       outcomes agree - so what is proved about Model/World.v / Circuit.v transfers;
+     * OWNERSHIP / SEPARATION invariant [inv] of every reachable heap: a circuit's list object, its
+       four herald dicts (the external ones may alias the full ones of the SAME circuit) and its
+       internal-modes list are private to it; component cells, group lists and group dicts are
+       nobody's private cell (they may be shared freely); groups do not nest;
+     * WRITE DISCIPLINE: every write of a call goes to a cell allocated during that call or to a
+       private cell of its target; hence no cell reachable from any other circuit is written
+       (args_unchanged at the heap level), a call that raises writes to no pre-existing cell at
+       all (failed_call_no_write), shared component cells are never written after the call that
+       created them;
+     * SHARING: which references copy() and + share.
+   The rewrite calls compress_mode_swaps / remove_non_adjacent_bs / copy(freeze_parameters=True)
+   are transcribed in Model/Heap.v ([hstep9]) and run by the correspondence check, but the
+   theorems of part 2 cover the twelve calls of [op] only.
+
+   That the real objects have the sharing structure of the heap model is what the correspondence
+   run checks: after every call of a generated history the value of EVERY live object is compared
+   with its value before the call, and the identity structure (`is`) of the real lists, dicts and
+   components with the addresses of the heap model (harness/c08.py, Exec/RunC08.v). *)
 From Coq Require Import ZArith List Bool Arith Lia.
-From LW Require Import Base.Sx Base.Num Base.Mat Model.Circuit Model.World Proofs.WorldP.
+From Coq Require Import PArith.
+From LW Require Import Base.Sx Base.Num Base.Mat Model.Circuit Model.World Proofs.WorldP
+     Model.Heap Proofs.HeapP Proofs.HeapP2 Proofs.HeapP3 Proofs.HeapMain.
 Import ListNotations.
 
 Theorem C08_call_changes_only_its_target :
@@ -32,3 +58,151 @@ Print Assumptions C08_untargeted_objects_stable_over_histories.
 Example C08_add_targets_parent :
   forall (K : Type), target (OAdd (K:=K) 3 5 0%Z true) = 3.
 Proof. reflexivity. Qed.
+
+(* ======================= Part 2: the reference-level heap model ======================= *)
+
+(* (a) refinement, one call *)
+Theorem C08_heap_call_refines_functional_call :
+  forall (K : Type) (o : ops K) (e : env (K:=K)) (hw : hworld (K:=K)) (x : op (K:=K)),
+    inv hw ->
+    inv (fst (hstep o e hw x)) /\
+    abs (fst (hstep o e hw x)) = fst (step o e (abs hw) x) /\
+    snd (hstep o e hw x) = snd (step o e (abs hw) x).
+Proof. exact (fun K o => @hstep_refines K o). Qed.
+Print Assumptions C08_heap_call_refines_functional_call.
+
+(* (a) refinement, every program from the empty world; the invariant holds along the way *)
+Theorem C08_heap_history_refines_functional_history :
+  forall (K : Type) (o : ops K) (e : env (K:=K)) (pr : list (op (K:=K))),
+    inv (fst (hrun o e hw_empty pr)) /\
+    abs (fst (hrun o e hw_empty pr)) = fst (run o e [] pr) /\
+    snd (hrun o e hw_empty pr) = snd (run o e [] pr).
+Proof. exact (fun K o e pr => @hrun_refines K o e pr hw_empty (@inv_empty K)). Qed.
+Print Assumptions C08_heap_history_refines_functional_history.
+
+(* (b) the ownership / separation invariant holds in every reachable heap world *)
+Theorem C08_reachable_ownership_invariant :
+  forall (K : Type) (o : ops K) (e : env (K:=K)) (hw : hworld (K:=K)),
+    hreachable o e hw -> inv hw.
+Proof. exact (fun K o => @hreachable_inv K o). Qed.
+Print Assumptions C08_reachable_ownership_invariant.
+
+(* (b) every write goes to a cell allocated during the call or to a private cell of the target *)
+Theorem C08_writes_only_new_cells_or_target_private_cells :
+  forall (K : Type) (o : ops K) (e : env (K:=K)) (hw : hworld (K:=K)) (x : op (K:=K)),
+    inv hw ->
+    (forall a, In a (h_log (hw_heap (fst (hstep o e hw x)))) ->
+               (h_next (hw_heap hw) <= a)%positive \/ In a (target_priv (hw_pool hw) x)) /\
+    (forall a, (a < h_next (hw_heap hw))%positive -> ~ In a (target_priv (hw_pool hw) x) ->
+               hget (hw_heap (fst (hstep o e hw x))) a = hget (hw_heap hw) a) /\
+    (h_next (hw_heap hw) <= h_next (hw_heap (fst (hstep o e hw x))))%positive.
+Proof. exact (fun K o => @hstep_writes K o). Qed.
+Print Assumptions C08_writes_only_new_cells_or_target_private_cells.
+
+(* (b) args_unchanged at the heap level *)
+Theorem C08_args_unchanged_no_reachable_cell_written :
+  forall (K : Type) (o : ops K) (e : env (K:=K)) (hw : hworld (K:=K)) (x : op (K:=K)) (j : nat) (cj : hcirc),
+    inv hw -> pget (hw_pool hw) j = Some cj -> j <> target x ->
+    pget (hw_pool (fst (hstep o e hw x))) j = Some cj /\
+    (forall a, In a (reach (hw_heap hw) cj) ->
+               ~ In a (h_log (hw_heap (fst (hstep o e hw x)))) /\
+               hget (hw_heap (fst (hstep o e hw x))) a = hget (hw_heap hw) a) /\
+    reach (hw_heap (fst (hstep o e hw x))) cj = reach (hw_heap hw) cj /\
+    abs_circ (hw_heap (fst (hstep o e hw x))) cj = abs_circ (hw_heap hw) cj.
+Proof. exact (fun K o => @hstep_args_unchanged K o). Qed.
+Print Assumptions C08_args_unchanged_no_reachable_cell_written.
+
+(* (b) failed_call_no_write *)
+Theorem C08_failed_call_no_write :
+  forall (K : Type) (o : ops K) (e : env (K:=K)) (hw : hworld (K:=K)) (x : op (K:=K)) (y : err),
+    inv hw -> snd (hstep o e hw x) = Err y ->
+    hw_pool (fst (hstep o e hw x)) = hw_pool hw /\
+    (forall a, In a (h_log (hw_heap (fst (hstep o e hw x)))) -> (h_next (hw_heap hw) <= a)%positive) /\
+    (forall a, (a < h_next (hw_heap hw))%positive -> hget (hw_heap (fst (hstep o e hw x))) a = hget (hw_heap hw) a) /\
+    abs (fst (hstep o e hw x)) = abs hw.
+Proof. exact (fun K o => @hstep_failed_no_write K o). Qed.
+Print Assumptions C08_failed_call_no_write.
+
+(* (b) over histories: an object that is never a target is the same object afterwards and none of the
+   cells it reaches has changed (later edits of a sub-circuit never reach a parent, and vice versa) *)
+Theorem C08_untargeted_objects_never_written_over_histories :
+  forall (K : Type) (o : ops K) (e : env (K:=K)) (pr : list (op (K:=K))) (hw : hworld (K:=K)) (j : nat) (cj : hcirc),
+    inv hw -> pget (hw_pool hw) j = Some cj -> (forall x, In x pr -> j <> target x) ->
+    pget (hw_pool (fst (hrun o e hw pr))) j = Some cj /\
+    (forall a, In a (reach (hw_heap hw) cj) -> hget (hw_heap (fst (hrun o e hw pr))) a = hget (hw_heap hw) a) /\
+    reach (hw_heap (fst (hrun o e hw pr))) cj = reach (hw_heap hw) cj /\
+    abs_circ (hw_heap (fst (hrun o e hw pr))) cj = abs_circ (hw_heap hw) cj.
+Proof. exact (fun K o => @hrun_args_unchanged K o). Qed.
+Print Assumptions C08_untargeted_objects_never_written_over_histories.
+
+(* (c) sharing after copy(): a new list object with the SAME component references, new private cells *)
+Theorem C08_sharing_copy :
+  forall (K : Type) (o : ops K) (e : env (K:=K)) (hw : hworld (K:=K)) (new a : nat) (ca : hcirc),
+    inv hw -> pget (hw_pool hw) a = Some ca ->
+    exists c', pget (hw_pool (fst (hstep o e hw (OCopy new a)))) new = Some c' /\
+               rd_list (hw_heap (fst (hstep o e hw (OCopy new a)))) (hc_spec c') = rd_list (hw_heap hw) (hc_spec ca) /\
+               Forall (fun b => (h_next (hw_heap hw) <= b)%positive) (priv c') /\ NoDup (priv c').
+Proof. exact (fun K o => @sharing_copy K o). Qed.
+Print Assumptions C08_sharing_copy.
+
+(* (c) sharing after a + b: a new list object holding the references of a, then those of b *)
+Theorem C08_sharing_plus :
+  forall (K : Type) (o : ops K) (e : env (K:=K)) (hw : hworld (K:=K)) (new a b : nat),
+    inv hw -> snd (hstep o e hw (OPlus new a b)) = Ok tt ->
+    exists ca cb c', pget (hw_pool hw) a = Some ca /\ pget (hw_pool hw) b = Some cb /\
+               pget (hw_pool (fst (hstep o e hw (OPlus new a b)))) new = Some c' /\
+               rd_list (hw_heap (fst (hstep o e hw (OPlus new a b)))) (hc_spec c') =
+                 rd_list (hw_heap hw) (hc_spec ca) ++ rd_list (hw_heap hw) (hc_spec cb) /\
+               Forall (fun x => (h_next (hw_heap hw) <= x)%positive) (priv c') /\ NoDup (priv c').
+Proof. exact (fun K o => @sharing_plus K o). Qed.
+Print Assumptions C08_sharing_plus.
+
+(* ----------------------- non-vacuity: a concrete history ----------------------- *)
+Definition zops : ops Z := mkOps Z 0%Z 1%Z Z.add Z.mul Z.sub Z.opp (fun x => x) (fun x => x) Z.eqb Z.leb (fun z => z).
+Definition zenv : env (K:=Z) := fun _ => (0%Z, 0%Z, 0%Z).
+Definition one : val (K:=Z) := Lit (1%Z, 1%Z, 0%Z).      (* reflectivity 1 *)
+Definition nol : val (K:=Z) := Lit (0%Z, 1%Z, 0%Z).      (* loss 0 *)
+
+(* 0 = heralded sub-circuit; 1 = parent; 4, 5 = plain circuit and its copy(); 6 = 4 + 5;
+   the sub is added twice to the parent (the second time an ancilla of the first lies in the span),
+   then 6 (which shares every component with 4 and 5) is added ungrouped; one call is rejected *)
+Definition demo : list (op (K:=Z)) :=
+  [ ONew 0 3; OBs 0 0%Z (Some 1%Z) one nol Rx; OHerald 0 1 2%Z None;
+    ONew 1 5; OBs 1 0%Z (Some 1%Z) one nol Rx;
+    OAdd 1 0 0%Z false; OAdd 1 0 1%Z false;
+    OBs 1 9%Z None one nol Rx;
+    ONew 4 2; OBs 4 0%Z (Some 1%Z) one nol Hv; OCopy 5 4; OPlus 6 4 5;
+    OPs 5 0%Z one nol;
+    OAdd 1 6 0%Z false; OUnpack 1 ].
+
+Example C08_demo_outcomes :
+  snd (hrun zops zenv hw_empty demo) =
+  [Ok tt; Ok tt; Ok tt; Ok tt; Ok tt; Ok tt; Ok tt; Err ModeRangeError; Ok tt; Ok tt; Ok tt; Ok tt; Ok tt; Ok tt; Ok tt].
+Proof. vm_compute. reflexivity. Qed.
+
+(* the hypothesis [inv hw] of the theorems above holds in a world with sharing, ancillas and groups *)
+Example C08_demo_invariant : inv (fst (hrun zops zenv hw_empty demo)).
+Proof. apply (C08_reachable_ownership_invariant Z zops zenv). exists demo. reflexivity. Qed.
+
+Definition spec_refs (hw : hworld (K:=Z)) (id : nat) : list addr :=
+  match pget (hw_pool hw) id with Some c => rd_list (hw_heap hw) (hc_spec c) | None => [] end.
+
+(* 5 = 4.copy() got a new list with the references of 4 (and then one more entry of its own);
+   6 = 4 + 5 holds the reference of 4 twice: the component cell is shared three ways *)
+Example C08_demo_sharing :
+  let hw := fst (hrun zops zenv hw_empty demo) in
+  spec_refs hw 6 = spec_refs hw 4 ++ spec_refs hw 4 /\
+  firstn 1 (spec_refs hw 5) = spec_refs hw 4 /\ length (spec_refs hw 5) = 2.
+Proof. vm_compute. repeat split. Qed.
+
+(* the parent shares no component cell with the circuits that were added to it *)
+Example C08_demo_parent_shares_nothing :
+  let hw := fst (hrun zops zenv hw_empty demo) in
+  forallb (fun a => negb (existsb (Pos.eqb a) (spec_refs hw 0 ++ spec_refs hw 4 ++ spec_refs hw 5 ++ spec_refs hw 6)))
+          (spec_refs hw 1) = true /\ length (spec_refs hw 1) = 5.
+Proof. vm_compute. split; reflexivity. Qed.
+
+(* the rejected call of the history satisfies the hypothesis of C08_failed_call_no_write *)
+Example C08_demo_rejected_call :
+  snd (hstep zops zenv (fst (hrun zops zenv hw_empty (firstn 7 demo))) (OBs 1 9%Z None one nol Rx)) = Err ModeRangeError.
+Proof. vm_compute. reflexivity. Qed.
